@@ -165,6 +165,14 @@ var checks = map[string]Check{
 				js = append(js, sched("c04_live", "proto="+pr+",mode=status,alphabet="+a, 0, 1))
 				js = append(js, sched("c04_live", "proto="+pr+",mode=cause", 0, 1))
 			}
+			// sequences of calls with mixed outcomes on recycled contexts (depth 3 quick / 4 thorough)
+			d := "3"
+			if tier == "thorough" {
+				d = "4"
+			}
+			sq := sched("c04_live", "proto=raw,mode=seq,depth="+d, 0, 4)
+			sq.EnvOnly = true
+			js = append(js, sq)
 			js = append(js, Job{Mode: "enum", Name: "c04_frames", Shards: 4})
 			return js
 		},
@@ -362,6 +370,20 @@ var checks = map[string]Check{
 							j.Bound = 1
 							j.Shards = 4
 							j.Budget = 60
+						}
+						js = append(js, j)
+					}
+				}
+			}
+			// the unavailable attempts fail in the client's PostDial hook (server reachable at the network level)
+			for _, f := range []string{"idle", "awaiting", "write"} {
+				for _, b := range []string{"1", "2"} {
+					for _, d := range []string{"1", "3"} {
+						j := sched("c13", "fault="+f+",budget="+b+",down="+d+",hook=1", 0, 1)
+						if tier == "thorough" {
+							j.Bound = 1
+							j.Shards = 4
+							j.Budget = 120
 						}
 						js = append(js, j)
 					}
